@@ -38,7 +38,7 @@ def _origin(net, spec, truncate=None, trunc_how="rst"):
 
     script = None
     if h2:
-        script = {"data_chunk": spec["data_chunk"], "pad": spec["pad"]}
+        script = {"data_chunk": spec["data_chunk"], "pad": spec["pad"], "empty_every": spec.get("empty_every")}
     return endpoints.Origin(net, "o.test", 443 if h2 else 80, tls=h2, alpn=["h2"] if h2 else None,
                             responder=responder, h2_script=script)
 
